@@ -580,7 +580,9 @@ pub fn gen_c14_mixed(rng: &mut Rng, n: usize) {
 pub fn gen_c16_stage(rng: &mut Rng, n: usize) {
     for i in 0..n {
         let mut case = random_case(rng, i % 2 == 1);
-        let v_db = if i % 5 == 0 { *rng.pick(&[6.0205999132796239, -6.0205999132796239, 20.0, -60.0, 60.0]) } else { rng.uniform(-60.0, 60.0) };
+        let v_db = if i % 5 == 0 { *rng.pick(&[6.0205999132796239, -6.0205999132796239, 20.0, -60.0, 60.0]) }
+                   else if i % 5 == 2 { *rng.pick(&[0.005, -0.008, 1e-4, -1e-6, 0.0086, -0.0009]) }   // a hair away from 0 dB (C16j)
+                   else { rng.uniform(-60.0, 60.0) };
         let unit = case.clone();
         case.volume = 10f64.powf(v_db / 20.0);
         let mut line = String::from("voc C16");
